@@ -186,7 +186,7 @@ class Parser(Node):
         if self.keyword is None:
             raise Exception(f"Type not recognized: {self.code}")
 
-    def _part_dimension(self):
+    def _part_dimension(self, slicing=False):
         pattern = r'^(\[([0-9:,]+)\])'
         m=re.match(pattern, self.ccode)
         if m:
@@ -195,12 +195,12 @@ class Parser(Node):
             for dim in dims:
                 if ":" in dim:
                     dmin,dmax = dim.split(':')
-                    var.append((
-                        int(dmin) if dmin else None,
-                        int(dmax) if dmax else None
-                    ))
+                    dmin = int(dmin) if dmin else None
+                    dmax = int(dmax) if dmax else None
+                    # a slice keeps ranges apart from indices: [2:2] is an empty range, [2] an index
+                    var.append(slice(dmin,dmax) if slicing else (dmin,dmax))
                 else:
-                    var.append((int(dim), int(dim)))
+                    var.append(int(dim) if slicing else (int(dim), int(dim)))
             self._strip(m.group(1))
             return var
         return None
@@ -262,7 +262,7 @@ class Parser(Node):
             self.part_slice()
 
     def part_slice(self):
-        if dim := self._part_dimension():
+        if dim := self._part_dimension(slicing=True):
             self.parsed.append('part_slice')
             self.value_slice = dim
 
